@@ -414,7 +414,7 @@ func main() {
 
 	id := 0
 	constructs := []int{cSplit, cProcessParallel, cForEach, cWorker, cMap, cParallelBuffer, cBuffer, cMerge, cGenerate, cReadOne}
-	rounds := run.Pick(8, 200)
+	rounds := run.Pick(30, 600)
 	procs := []int{1, 2, 4, 8}
 	for round := 0; round < rounds; round++ {
 		for _, k := range constructs {
@@ -444,6 +444,9 @@ func main() {
 							c.Jitter = 0
 						}
 						id++
+						if run.NOracle >= 5 { // enough evidence; a hanging case costs the full time bound
+							continue
+						}
 						execCase(run, c, false)
 					}
 				}
